@@ -174,6 +174,9 @@ class Gen:
         self.fid = {}       # object -> file
         self.live = []
         self.nj = 0
+        self.pobj = {}      # object -> id of the Project object behind it
+        self.created = {}   # Project object -> files (ids) whose job directory was created through it: these ids
+                            # are in that object's state point cache, also after the job was removed / re-keyed
         files = [0] + rng.sample([1, 2, 3], nfiles - 1) if nfiles > 1 else [rng.choice([0, 1])]
         for f in files:
             for _ in range(rng.randint(1, nhandles)):
@@ -183,29 +186,78 @@ class Gen:
     def open(self, f):
         j = self.nj
         self.nj += 1
-        self.items.append(["open", j, f, self.rng.choice(PROVS)])
+        self.prov = getattr(self, "prov", {})
+        self.prov[j] = self.rng.choice(PROVS)
+        self.items.append(["open", j, f, self.prov[j]])
         self.fid[j] = f
+        self.pobj[j] = j
         self.live.append(j)
         return j
+
+    def touch(self, j):
+        """a document operation / init through j: creates the job directory if it does not exist"""
+        f = self.fid[j]
+        if f % 10 and f not in self.dirs:
+            self.created.setdefault(self.pobj[j], set()).add(f)
+        self.dirs.add(f)
 
     def step(self, allow_life):
         rng = self.rng
         if not self.live:
             self.open(rng.choice([0, 1, 2, 3]))
+        if self.lifecycle and rng.random() < 0.04:
+            self.open(rng.choice([10, 11, 12, 13]))      # a handle in the second project
         if rng.random() < 0.07:
             self.items.append(["chdir", rng.randrange(NCWD)])
         j = rng.choice(self.live)
         f = self.fid[j]
-        if allow_life and self.lifecycle and f != 0 and rng.random() < 0.12:
-            kind = rng.choice(["remove", "rekey", "init", "open"])
+        if allow_life and self.lifecycle and f % 10 != 0 and rng.random() < 0.16:
+            kind = rng.choice(["remove", "rekey", "init", "open", "move", "openid", "openid"])
             if kind == "open":
                 self.open(rng.choice([0, 1, 2, 3]))
                 return True
             if kind == "init":
                 self.items.append(["init", j])
-                self.dirs.add(f)
+                self.touch(j)
+                return True
+            if kind == "openid":
+                # project.open_job(id=...) through the Project object of an existing handle, for an id that object has
+                # in its state point cache: a current job, a removed one, or a former id of a re-keyed / moved one
+                cands = [(x, g) for x in self.live for g in sorted(self.created.get(self.pobj[x], ()))]
+                if not cands:
+                    return True
+                j0, g = rng.choice(cands)
+                jn = self.nj
+                self.nj += 1
+                self.items.append(["openid", jn, j0, g, self.prov[j0]])
+                self.fid[jn] = g
+                self.pobj[jn] = self.pobj[j0]
+                self.prov[jn] = self.prov[j0]
+                self.live.append(jn)
                 return True
             others = [x for x in self.live if x != j and self.fid[x] == f]
+            if kind == "move":
+                if f >= 10:
+                    return True
+                self.items.append(["move", j])
+                if f not in self.dirs:
+                    pass                                   # RuntimeError: not initialized
+                elif f + 10 in self.dirs:
+                    pass                                   # DestinationExistsError, nothing changed
+                else:
+                    self.dirs.discard(f)
+                    self.dirs.add(f + 10)
+                    if f in self.ref:
+                        self.ref[f + 10] = self.ref.pop(f)
+                    else:
+                        self.ref.pop(f + 10, None)
+                    self.fid[j] = f + 10
+                    self.pobj[j] = ("moved", j, len(self.items))   # the destination project's object
+                    self.prov[j] = PROV_GET_ABS
+                    self.created.setdefault(self.pobj[j], set()).add(f + 10)   # move registers the id there
+                    for x in others:
+                        self.live.remove(x)
+                return True
             if kind == "remove":
                 self.items.append(["remove", j])
                 if f in self.dirs:
@@ -214,7 +266,7 @@ class Gen:
                     for x in others:
                         self.live.remove(x)
                 return True
-            f2 = rng.choice([x for x in (1, 2, 3) if x != f])
+            f2 = rng.choice([x for x in (1, 2, 3) if x != f % 10]) + (f // 10) * 10
             self.items.append(["rekey", j, f2])
             if f not in self.dirs:
                 self.fid[j] = f2
@@ -225,6 +277,7 @@ class Gen:
             else:
                 self.dirs.discard(f)
                 self.dirs.add(f2)
+                self.created.setdefault(self.pobj[j], set()).add(f2)     # the new id is registered on re-init
                 if f in self.ref:
                     self.ref[f2] = self.ref.pop(f)
                 else:
@@ -234,7 +287,7 @@ class Gen:
                     self.live.remove(x)
             return True
         doc = self.ref.setdefault(f, {})
-        self.dirs.add(f)
+        self.touch(j)
         path, op = rand_op(rng, doc)
         self.items.append(["op", j, path, op])
         try:
@@ -247,7 +300,7 @@ class Gen:
         for j in self.live:
             if f is None or self.fid[j] == f:
                 self.items.append(["op", j, [], ["get"]])
-                self.dirs.add(self.fid[j])
+                self.touch(j)
                 self.ref.setdefault(self.fid[j], {})
 
 
@@ -274,12 +327,19 @@ def _final_reads(live):
 
 
 def is_life(i):
-    return i[0] in ("remove", "rekey", "init")
+    return i[0] in ("remove", "rekey", "init", "move")
+
+
+def strip_life(items):
+    """The program without lifecycle items; open-by-id handles (legal only because of them) and their uses go too."""
+    byid = {i[1] for i in items if i[0] == "openid"}
+    return [i for i in items if not is_life(i) and i[0] != "openid" and not (i[0] == "op" and i[1] in byid)]
 
 
 def closes_blocks(i):
-    """re-key is kept outside buffered blocks (outside the property's statement); remove/init/open are not"""
-    return i[0] == "rekey"
+    """re-key and move are kept outside buffered blocks (outside the property's statement; see notes: a buffered
+    write followed by an id change / move in the same block is lost on the unchanged tree); remove/init/open are not"""
+    return i[0] in ("rekey", "move")
 
 
 def random_blocks(rng, items, live):
@@ -309,6 +369,21 @@ def random_blocks(rng, items, live):
 
 
 GOLDEN = [
+    # lifecycle between document operations (seeded C05-8 / C05-9): move to the second project; remove + reopen by the
+    # cached id; re-key + reopen by the former id - each followed by reads/writes through old and fresh handles
+    {"cap0": DEFAULT_CAP, "threads": True, "label": "golden-move", "prog": [
+        ["open", 0, 1, PROV_GET_ABS], ["op", 0, [], ["set", "x", 1]], ["move", 0], ["op", 0, [], ["get"]], ["op", 0, [], ["set", "y", 2]],
+        ["open", 1, 11, PROV_GET_ABS], ["op", 1, [], ["get"]], ["op", 1, [], ["set", "w", 0]], ["op", 0, [], ["get"]],
+        ["enter", None], ["op", 0, [], ["set", "z", 3]], ["op", 0, [], ["get"]], ["exit"], ["op", 1, [], ["get"]], ["op", 0, [], ["get"]]]},
+    {"cap0": DEFAULT_CAP, "threads": True, "label": "golden-reopen-removed-id", "prog": [
+        ["open", 0, 1, PROV_GET_ABS], ["op", 0, [], ["set", "x", 1]], ["remove", 0], ["openid", 1, 0, 1, PROV_GET_ABS],
+        ["op", 1, [], ["set", "y", 2]], ["op", 1, [], ["get"]], ["open", 2, 1, PROV_GET_REL], ["op", 2, [], ["get"]],
+        ["remove", 2], ["openid", 3, 0, 1, PROV_GET_ABS], ["enter", None], ["op", 3, [], ["set", "z", 3]], ["op", 3, [], ["get"]], ["exit"],
+        ["op", 3, [], ["get"]], ["open", 4, 1, PROV_GET_ABS], ["op", 4, [], ["get"]]]},
+    {"cap0": DEFAULT_CAP, "threads": True, "label": "golden-reopen-former-id", "prog": [
+        ["open", 0, 1, PROV_CTOR_REL], ["op", 0, [], ["set", "x", 1]], ["rekey", 0, 2], ["openid", 1, 0, 1, PROV_CTOR_REL],
+        ["op", 1, [], ["get"]], ["op", 1, [], ["set", "y", 2]], ["op", 0, [], ["get"]], ["open", 2, 1, PROV_GET_ABS], ["op", 2, [], ["get"]],
+        ["openid", 3, 0, 2, PROV_CTOR_REL], ["op", 3, [], ["get"]]]},
     # handle provenance and working directory (seeded demo C05-5): a signac.Project("relative") object next to a
     # get_project() object on the project document and on a job document, with chdir in between
     {"cap0": DEFAULT_CAP, "threads": True, "label": "golden-provenance", "prog": [
@@ -417,13 +492,13 @@ def gen_inputs(tier, rng):
         thr = rng.random() < 0.8
         add(items, "unbuffered", thr)
         # without the lifecycle items every object stays in use
-        nolife = [i for i in items if not is_life(i)]
+        nolife = strip_life(items)
         everyone = sorted({i[1] for i in nolife if i[0] == "open"})
         add(wrap_all(nolife, rng.choice([None, None, 0, 1, 40, 200]), everyone), "buffered", thr)
         add(random_blocks(rng, items, live), "sub-blocks", thr, cap0=rng.choice([DEFAULT_CAP, DEFAULT_CAP, 0, 50, 300]))
         if multi:
             add(random_blocks(rng, nolife, everyone), "sub-blocks-shared", thr)
-        if any(i[0] == "remove" for i in items) and not any(i[0] == "rekey" for i in items):
+        if any(i[0] == "remove" for i in items) and not any(closes_blocks(i) for i in items):
             # remove / init / re-open inside one block
             add(wrap_all(items, rng.choice([None, None, 0, 40, 200]), live), "buffered-remove", thr)
     if tier != "quick":
@@ -514,6 +589,11 @@ def coq_item(it):
         return "(JOpen %s %s %s)" % (coq_N(it[1]), coq_N(it[2]), coq_N(it[3] if len(it) > 3 else PROV_GET_ABS))
     if k == "chdir":
         return "(JCwd %s)" % coq_N(it[1])
+    if k == "openid":
+        # a new Job object for job it[3] through the Project object of handle it[2]; it[4] = that object's provenance
+        return "(JOpen %s %s %s)" % (coq_N(it[1]), coq_N(it[3]), coq_N(it[4]))
+    if k == "move":
+        return "(JMove %s)" % coq_N(it[1])
     if k == "op":
         return "(JOp %s %s %s)" % (coq_N(it[1]), coq_path(it[2]), coq_dop(it[3]))
     if k == "rekey":
@@ -634,7 +714,7 @@ def _misplaced(root):
     base = os.path.dirname(root)
     top = os.path.dirname(os.path.dirname(os.path.dirname(base)))
     expect = {top: {"d1"}, os.path.join(top, "d1"): {"d2"}, os.path.join(top, "d1", "d2"): {"d3"},
-              base: {"p", "lnk", "elsewhere"}, os.path.join(base, "elsewhere"): {"x"},
+              base: {"p", "p2", "lnk", "elsewhere"}, os.path.join(base, "elsewhere"): {"x"},
               os.path.join(base, "elsewhere", "x"): {"y"}, os.path.join(base, "elsewhere", "x", "y"): set()}
     n = 0
     for d, ok in expect.items():
@@ -646,25 +726,27 @@ def _misplaced(root):
 
 
 def observe(signac, root, ids):
+    """Both projects: file ids 0 / n for the first (root), 10 / 10 + n for the second (root + '2')."""
     files, dirs, stray = [], [], _misplaced(root)
-    for name in sorted(os.listdir(root)):
-        if name not in (".signac", "workspace", "signac_project_document.json"):
-            stray += 1
-    p0 = os.path.join(root, "signac_project_document.json")
-    paths = {0: p0}
-    ws = os.path.join(root, "workspace")
     byid = {v: k for k, v in ids.items()}
-    for name in sorted(os.listdir(ws)) if os.path.isdir(ws) else []:
-        f = byid.get(name)
-        if f is None or not os.path.isdir(os.path.join(ws, name)):
-            stray += 1
-            continue
-        dirs.append(f)
-        for e in os.listdir(os.path.join(ws, name)):
-            if e == "signac_job_document.json":
-                paths[f] = os.path.join(ws, name, e)
-            elif e != "signac_statepoint.json":
+    paths = {}
+    for off, r in ((0, root), (10, root + "2")):
+        for name in sorted(os.listdir(r)):
+            if name not in (".signac", "workspace", "signac_project_document.json"):
                 stray += 1
+        paths[off] = os.path.join(r, "signac_project_document.json")
+        ws = os.path.join(r, "workspace")
+        for name in sorted(os.listdir(ws)) if os.path.isdir(ws) else []:
+            f = byid.get(name)
+            if f is None or not os.path.isdir(os.path.join(ws, name)):
+                stray += 1
+                continue
+            dirs.append(off + f)
+            for e in os.listdir(os.path.join(ws, name)):
+                if e == "signac_job_document.json":
+                    paths[off + f] = os.path.join(ws, name, e)
+                elif e != "signac_statepoint.json":
+                    stray += 1
     for f in sorted(paths):
         if os.path.isfile(paths[f]):
             with open(paths[f], "rb") as fh:
@@ -691,33 +773,48 @@ def run_case(desc):
         os.symlink(base, os.path.join(base, "lnk"))      # target inside the case directory
         os.chdir(base)
         project = signac.init_project(path=root)
+        signac.init_project(path=root + "2")              # the second project (move destination)
         _reset_backend(signac, desc["cap0"])
         (JD.enable_multithreading if thr else JD.disable_multithreading)()
         ids = {f: project.open_job(sp_of(f)).id for f in range(1, NFILES)}
         objs = {}
         fid_of = {}
+        proj_of = {}
         try:
             for n, it in enumerate(prog):
                 k = it[0]
                 try:
                     val = None
                     if k == "open":
-                        pr = project_by_provenance(signac, project, root, it[3] if len(it) > 3 else PROV_GET_ABS)
-                        objs[it[1]] = pr if it[2] == 0 else pr.open_job(sp_of(it[2]))
+                        r_ = root + "2" if it[2] >= 10 else root
+                        pr = project_by_provenance(signac, project, r_, it[3] if len(it) > 3 else PROV_GET_ABS)
+                        objs[it[1]] = pr if it[2] % 10 == 0 else pr.open_job(sp_of(it[2] % 10))
+                        proj_of[it[1]] = pr
                         fid_of[it[1]] = it[2]
+                    elif k == "openid":
+                        # a new Job object by id through the Project object of handle it[2] (the id is in its cache)
+                        pr = proj_of[it[2]]
+                        objs[it[1]] = pr.open_job(id=ids[it[3] % 10])
+                        proj_of[it[1]] = pr
+                        fid_of[it[1]] = it[3]
+                    elif k == "move":
+                        dst = signac.get_project(root + "2")
+                        objs[it[1]].move(dst)
+                        proj_of[it[1]] = dst
+                        fid_of[it[1]] = fid_of[it[1]] + 10
                     elif k == "chdir":
                         os.chdir(cwds[it[1]])
                     elif k == "op":
                         o = objs[it[1]]
                         if it[3][0] == "reset" and not it[2] and n % 2 == 0:
                             o.document = it[3][1]          # the setter spelling of reset
-                        elif (it[3][0] == "clear" and not it[2] and fid_of.get(it[1], 0) != 0 and n % 2 == 1
+                        elif (it[3][0] == "clear" and not it[2] and fid_of.get(it[1], 0) % 10 != 0 and n % 2 == 1
                               and os.path.isdir(o.path)):
                             o.clear()                      # Job.clear(): for the document this is document.clear()
                         else:
                             val = do_op(o.document if n % 3 else o.doc, it[2], copy.deepcopy(it[3]), n % 2 == 1)
                     elif k == "rekey":
-                        objs[it[1]].statepoint = sp_of(it[2])
+                        objs[it[1]].statepoint = sp_of(it[2] % 10)
                         fid_of[it[1]] = it[2]
                     elif k == "remove":
                         try:
@@ -725,7 +822,7 @@ def run_case(desc):
                         except Exception:
                             # remove() raised half way (BufferedError of a forced flush): the object is discarded,
                             # the program continues with a fresh Job object for the same job
-                            objs[it[1]] = project.open_job(sp_of(fid_of[it[1]]))
+                            objs[it[1]] = proj_of[it[1]].open_job(sp_of(fid_of[it[1]] % 10))
                             raise
                     elif k == "init":
                         objs[it[1]].init()
